@@ -26,6 +26,11 @@ Creds == [
   othercac1                |-> [issued |-> FALSE, cn |-> ""],
   othercasigner2           |-> [issued |-> FALSE, cn |-> ""],
   expiredc1                |-> [issued |-> FALSE, cn |-> ""],
+  \* an other-authority certificate offered together with a TLS session ticket the caller minted itself, under a ticket key derived
+  \* from public material (the server's certificates, the authority's certificate, names); a resumed session is admitted on the
+  \* ticket alone, so this caller must find no key that the server accepts
+  ticketothercac1          |-> [issued |-> FALSE, cn |-> ""],
+  ticketothercasigner2     |-> [issued |-> FALSE, cn |-> ""],
   validc1                  |-> [issued |-> TRUE,  cn |-> "c1"],
   validc2                  |-> [issued |-> TRUE,  cn |-> "c2"],
   validnobody              |-> [issued |-> TRUE,  cn |-> "nobody"],
